@@ -25,6 +25,7 @@ EXPLANATION = (
     ' (10) ALIAS: the objects a canvas keeps by reference (rows handed to TextCanvas, the mapping of fill_attr_apply, the list of set_depends) are fresh at every call site or widget attributes whose every store is a private copy and that are never changed in place (before fix 45b9be8 AttrMap.set_attr_map / set_focus_map stored the dictionary of the caller: changing it later altered canvases already cached).'
     ' (11) ALIAS: an attribute a canvas class edits in place (coords, shortcuts, the cache tables) only ever holds an object of its own: no store of another canvas\'s attribute or of a bare parameter.'
     ' (12) INV-EMIT: from a render-state write every path to a signal emission passes _invalidate() - a raising handler must not leave changed state behind unchanged canvases; (8) a hidden-child declaration made under a count test counts the child collection itself.'
+    ' Round 7: (13) the dependency-collecting helper of CanvasCache.store() recurses into every child without widget_info; (8) a set_depends() declaration names every member of the child collection (no filter, no zip with a shorter list).'
 )
 NOT_DECIDED = (
     "That cached and fresh renderings are equal for all widget trees and histories (needs the value semantics of rendering); that the cascade reaches the right widgets "
@@ -319,6 +320,31 @@ def rule_cleanup(ctx: Ctx) -> RuleResult:
     return rr
 
 
+def rule_depends_recursion(ctx: Ctx) -> RuleResult:
+    """CanvasCache.store() derives a canvas' dependencies from its children: a child that is a widget's finalised canvas
+    names that widget; a child without widget_info (an intermediate CompositeCanvas - the extra wrapper a box Pile puts
+    around its combined canvas before padding / trimming it, a CanvasJoin inside a CanvasCombine ...) has to be searched
+    in turn, to any depth: the collecting helper calls *itself* on such a child.  A fixed number of levels caches a
+    canvas with no dependencies whenever a container wraps once more than anticipated."""
+    p = ctx.p
+    rr = RuleResult("PASS", "C06.13", "the helper of CanvasCache.store() that collects the widgets a canvas depends on recurses into every child that has no widget_info", floor=1)
+    st = p.func("urwid.canvas.CanvasCache.store")
+    helpers = [g for g in p.functions.values() if getattr(g, "parent", None) is st and not g.is_lambda and any(isinstance(n, ast.Attribute) and n.attr == "children" for n in g.own_nodes())]
+    if not helpers:
+        raise AnalysisError("CanvasCache.store: the nested helper walking canvas.children was not found")
+    for g in helpers:
+        rec = [c for c in g.own_nodes() if isinstance(c, ast.Call) and isinstance(c.func, ast.Name) and c.func.id == g.name]
+        # the recursive call sits on the branch for children without widget_info
+        on_else = False
+        for t in [n for n in g.own_nodes() if isinstance(n, ast.If) and any(isinstance(a, ast.Attribute) and a.attr == "widget_info" for a in ast.walk(n.test))]:
+            if any(c in list(ast.walk(x)) for x in t.orelse for c in rec):
+                on_else = True
+        rr.inst(short(g), True, {"helper": short(g), "recursive_calls": len(rec), "on_the_branch_without_widget_info": on_else})
+        if not rec or not on_else:
+            rr.add(finding("PASS", g, g.node, f"{g.name}() does not call itself for children that have no widget_info: the dependencies of a canvas are only found down to a fixed depth, so a container that wraps its combined canvas once more (a box Pile that pads or trims) is cached without any dependency and later changes of its items never invalidate it", construct="dependency walk does not recurse"))
+    return rr
+
+
 def rule_memo_children(ctx: Ctx) -> RuleResult:
     """A container that memoises a layout under its size (`if maxcol == self._cache_maxcol: return self._cache_x`)
     is told about its own mutations through its _invalidate(); a *child's* change reaches it only through the canvas
@@ -450,6 +476,7 @@ def run(ctx: Ctx):
         rule_cascade(ctx),
         rule_layered_cache(ctx),
         rule_cleanup(ctx),
+        rule_depends_recursion(ctx),
         rule_memo_children(ctx),
         canv.run_hidden_dep(p, "C06.8", floor=6),
         inv.run_inv_render_write(p, "C06.9", floor=40, exceptions=INV_RENDER_EXCEPTIONS),
@@ -463,6 +490,7 @@ def run(ctx: Ctx):
 from ..mutants import Mut  # noqa: E402
 
 MUTANTS = [
+    Mut("depends-walk-two-levels", "urwid/canvas.py", "CanvasCache.store", "                    depends.extend(walk_depends(c))", "                    depends.extend(cc.widget_info[0] for _x, _y, cc, _pos in c.children if cc.widget_info)", "PASS|canvas.CanvasCache.store.<locals>.walk_depends|dependency walk does not recurse"),
     Mut("columns-depends-only-on-visible", "urwid/widget/columns.py", "Columns.render", "            canvas.set_depends([w for w, _ in self.contents])", "            canvas.set_depends([w for (w, _), width in zip(self.contents, widths) if width > 0])", "HIDDEN-DEP|widget.columns.Columns.render|set_depends leaves out members of contents"),
     Mut("cleanup-forgets-dependants", "urwid/canvas.py", "CanvasCache.cleanup", "            for dependant in cls._deps.pop(widget, []):\n                cls.invalidate(dependant)\n", "            cls._deps.pop(widget, None)\n", "PAIR|canvas.CanvasCache.cleanup|dependency edges dropped without invalidating the dependants"),
     Mut("edit-text-emits-before-invalidating", "urwid/widget/edit.py", "Edit.set_edit_text", "        self.edit_pos = min(self.edit_pos, len(text))\n", "        self._edit_pos = min(self._edit_pos, len(text))\n        self.pref_col_maxcol = None, None\n", "INV-EMIT|widget.edit.Edit.set_edit_text|emission before invalidation of"),
